@@ -3,6 +3,8 @@
 package cl
 
 import (
+	"math/big"
+
 	"github.com/ohler55/slip"
 )
 
@@ -17,9 +19,9 @@ func init() {
 			Name: "lcm",
 			Args: []*slip.DocArg{
 				{Name: "&rest"},
-				{Name: "integers", Type: "fixnum"},
+				{Name: "integers", Type: "integer"},
 			},
-			Return: "fixnum",
+			Return: "integer",
 			Text:   `__lcm__ returns the least common multiple of _integers_.`,
 			Examples: []string{
 				"(lcm) => 1",
@@ -38,9 +40,14 @@ type Lcm struct {
 func (f *Lcm) Call(s *slip.Scope, args slip.List, depth int) slip.Object {
 	z := slip.Fixnum(1)
 	for i, a := range args {
-		num, ok := a.(slip.Fixnum)
-		if !ok {
-			slip.TypePanic(s, depth, "integers", a, "fixnum")
+		var num slip.Fixnum
+		switch ta := a.(type) {
+		case slip.Fixnum:
+			num = ta
+		case *slip.Bignum:
+			return bigLcm(s, args, depth)
+		default:
+			slip.TypePanic(s, depth, "integers", a, "integer")
 		}
 		switch {
 		case num == 0:
@@ -55,4 +62,32 @@ func (f *Lcm) Call(s *slip.Scope, args slip.List, depth int) slip.Object {
 		}
 	}
 	return z
+}
+
+func bigLcm(s *slip.Scope, args slip.List, depth int) slip.Object {
+	var (
+		n big.Int
+		g big.Int
+	)
+	z := big.NewInt(1)
+	for _, a := range args {
+		switch ta := a.(type) {
+		case slip.Fixnum:
+			_ = n.SetInt64(int64(ta))
+		case *slip.Bignum:
+			_ = n.Abs((*big.Int)(ta))
+		default:
+			slip.TypePanic(s, depth, "integers", a, "integer")
+		}
+		if n.Sign() == 0 {
+			return slip.Fixnum(0)
+		}
+		_ = n.Abs(&n)
+		_ = g.GCD(nil, nil, z, &n)
+		_ = z.Mul(z.Quo(z, &g), &n)
+	}
+	if z.IsInt64() {
+		return slip.Fixnum(z.Int64())
+	}
+	return (*slip.Bignum)(z)
 }
